@@ -1,4 +1,5 @@
 import json
+import os
 from collections import OrderedDict
 
 
@@ -14,8 +15,12 @@ def table_to_serializable(table):
 
 
 def save_table(file_name, table):
-    with open(file_name, "w") as f:
+    # Write to a temporary file first and move it in place afterwards, so that
+    # an interrupted write can't leave an incomplete table file behind.
+    tmp_file_name = f"{file_name}.tmp"
+    with open(tmp_file_name, "w") as f:
         json.dump(table_to_serializable(table), f, sort_keys=True)
+    os.replace(tmp_file_name, file_name)
 
 
 def table_from_serializable(serialized_states, grammar):
